@@ -50,13 +50,10 @@ def guard_with_exception(proto):
 PROTO = {"srtp::SrtpContext::unprotect": "rtp_auth_prototype", "srtp::SrtpContext::unprotect_rtcp": "rtcp_auth_prototype"}
 
 
-def _state_sites(body):
-    sites = []
-    for bi, si, s in core.field_writes(body, lambda n: n in STATE_FIELDS):
-        sites.append((bi, "write:%s" % core._last_field(s["p"] if si is not None else s["dst"])))
-    for bi, t, path in core.calls_to(body, suffix("srtp::SrtpContext::update")):
-        sites.append((bi, "call:update"))
-    return sites
+def _state_sites(ctx, body):
+    """every site that may mutate the replay/rollover fields of *self: direct writes, `&mut self.<field>`
+    borrows, and calls handing `&mut self` to a callee that (transitively) does either"""
+    return core.state_mut_sites(ctx.facts, body, STATE_FIELDS)
 
 
 def r05_1(ctx):
@@ -66,7 +63,7 @@ def r05_1(ctx):
         body = ctx.body(fn)
         r.scope.append(fn)
         g = core.guard_edges(body, guard_with_exception(PROTO[fn]))
-        for bi, site in _state_sites(body):
+        for bi, site in _state_sites(ctx, body):
             total += 1
             p = core.k1(body, [bi], g)[bi]
             if p is None:
